@@ -52,6 +52,31 @@ def extract(ctx, finfo, grid_param, mean_param, np_aliases=("np", "numpy")):
                 eq.parent = getattr(n, "parent", None)
                 eq._orig = n
                 stores.append((eq, loops[0]))
+    if not stores:
+        # D[k:] = [CALL(lo, hi) for lo, hi in zip(G[a:], G[b:])]  is the loop
+        # for i, (lo, hi) in enumerate(zip(G[a:], G[b:]), start=k): D[i] = CALL(lo, hi)
+        for n in ast.walk(f.node):
+            if isinstance(n, ast.Assign) and len(n.targets) == 1 and isinstance(n.targets[0], ast.Subscript) and isinstance(n.targets[0].value, ast.Name) \
+                    and isinstance(n.targets[0].slice, ast.Slice) and n.targets[0].slice.upper is None and n.targets[0].slice.step is None \
+                    and isinstance(n.targets[0].slice.lower, ast.Constant) and isinstance(n.targets[0].slice.lower.value, int) \
+                    and isinstance(n.value, (ast.ListComp, ast.GeneratorExp)) and len(n.value.generators) == 1 and not n.value.generators[0].ifs \
+                    and enclosing_func(n) is f.node:
+                g_ = n.value.generators[0]
+                k_ = n.targets[0].slice.lower.value
+                ivn = "_cell_index"
+                store_ = ast.Assign(targets=[ast.Subscript(value=ast.Name(id=n.targets[0].value.id, ctx=ast.Load()), slice=ast.Name(id=ivn, ctx=ast.Load()), ctx=ast.Store())],
+                                    value=n.value.elt)
+                loop_ = ast.For(target=ast.Tuple(elts=[ast.Name(id=ivn, ctx=ast.Store()), g_.target], ctx=ast.Store()),
+                                iter=ast.Call(func=ast.Name(id="enumerate", ctx=ast.Load()), args=[g_.iter], keywords=[ast.keyword(arg="start", value=ast.Constant(value=k_))]),
+                                body=[store_], orelse=[])
+                for x in (store_, loop_):
+                    ast.copy_location(x, n)
+                    for sub in ast.walk(x):
+                        if not hasattr(sub, "lineno") and isinstance(sub, (ast.expr, ast.stmt)):
+                            ast.copy_location(sub, n)
+                store_.parent = loop_
+                loop_.parent = getattr(n, "parent", None)
+                stores.append((store_, loop_))
     if len(stores) != 1:
         return None, [("indet", f.node, "expected exactly one indexed store inside a loop, found %d" % len(stores))]
     store, loop = stores[0]
